@@ -41,6 +41,8 @@ def stmt_for(kind, name):
         'globaldecl': ['global %s' % name, '%s = 1' % name],
         'nonlocaldecl': ['nonlocal %s' % name, '%s = 1' % name],
         'nonlocalread': ['nonlocal %s' % name, '%s = 1' % name],
+        'compnested': ['[[0 for %s in ()] for _r in ()]' % name],
+        'fromalias_ml': ['from os import (path', '    as %s, sep as _s)' % name],
     }[kind]
 
 
@@ -78,7 +80,7 @@ def render_row(row):
             p = params_for(kind, name, False).replace(', /', ', /')
             lines = ['f = lambda %s: 0' % p]
     elif scope in ('lambda', 'lambdainmethod'):
-        body = {'walrus': '(%s := 1)' % name, 'comp': '[0 for %s in ()]' % name}[kind]
+        body = {'walrus': '(%s := 1)' % name, 'comp': '[0 for %s in ()]' % name, 'compnested': '[[0 for %s in ()] for _r in ()]' % name}[kind]
         lines = ['f = lambda: %s' % body] if scope == 'lambda' else ['class K:', '    def m(self):', '        return lambda: (self, %s)' % body]
     else:
         st = stmt_for(kind, name)
